@@ -131,7 +131,20 @@ def build_problem(case):
         if not t.get('use_low_fidelity_model') and rng.random() < 0.4:
             wl.add_pin_model(rng, P, nm, kind='fuel')
     if rng.random() < 0.3:
-        P['setup']['param_update_tol'] = float(wl.choose(rng, [1e-3, 0.01]))
+        P['setup']['param_update_tol'] = float(wl.choose(rng, [1e-3, 0.01,
+                                                                0.05]))
+    if rng.random() < 0.4:
+        # low-flow approximation: per-assembly decision, one nearly
+        # stagnant assembly among normal ones (any place in the order)
+        P['setup']['conv_approx'] = True
+        P['setup']['conv_approx_dz_cutoff'] = float(
+            wl.choose(rng, [0.002, 0.005, 0.01]))
+        slow = P['positions'][int(rng.integers(len(P['positions'])))]
+        slow['flowrate'] = slow['flowrate'] * float(
+            wl.loguniform(rng, 0.005, 0.05))
+        for sp in P['power']['asm'].values():
+            sp['comps'] = [1, 2, 3]
+        feats['conv_approx'] = True
     feats['tdep'] = tdep
     return P, feats
 
